@@ -316,6 +316,9 @@ type Type struct {
 
 	// resolveErrs holds the errors found when YangType was resolved.
 	resolveErrs []error
+	// resolving is set while the type is being resolved; meeting it
+	// again then means the type is defined in terms of itself.
+	resolving bool
 }
 
 func (Type) Kind() string             { return "type" }
